@@ -156,6 +156,20 @@ def make_cases(tier, table, meshes):
                     perms = ["none", "random", "colored", "gcmk_rev"]
                 for pi, perm in enumerate(perms):
                     add({"fam": fam, "dim": dim, "src": src, "srcname": "factory:" + nm, "k": pi}, t, perm, cubv=pi % 2 if tier == "thorough" else 0)
+    # uniformly scaled copies (coordinates * 2^-27 and * 2^20, exact): the transfer operators are scale invariant, so the SAME predicates must
+    # hold; the inter-mesh part is switched off there (Trafo::InverseMapping works with an absolute Newton tolerance)
+    base = list(cases)
+    for i, c0 in enumerate(base):
+        stride = 6 if tier == "quick" else 3
+        if i % stride != 0 or c0["srcname"].startswith("file:"):
+            continue
+        c = dict(c0)
+        c["id"] = "c%d" % n
+        c["scale"] = -27 if (i // stride) % 2 == 0 else 20
+        c["xcub"] = ""
+        c["srcname"] = c0["srcname"] + "*2^%d" % c["scale"]
+        cases.append(c)
+        n += 1
     if tier == "thorough":
         for fn, fam, dim in FILES:
             p = os.path.join(MESHDIR, fn)
@@ -175,7 +189,7 @@ def sig(c, pred):
 
 def run(chk):
     tier = chk.tier
-    bins = vlib.build(["c18_transfer_s", "c18_transfer_h"])
+    bins = vlib.build(["c18_transfer_s", "c18_transfer_h", "c18_invert"])
     gdir = os.path.join(vlib.BUILD, "gen", "C18", "run_%d" % os.getpid())
     os.makedirs(gdir, exist_ok=True)
     try:
@@ -186,7 +200,25 @@ def run(chk):
             os.remove(p)
 
 
+def invert_part(chk, binary):
+    """G: spec/InvertMatrix.tla -> Math::invert_matrix (the dense inversion of the local mass matrices), exact inverse and scale freedom"""
+    n = 0
+    for order in (2, 3):
+        r = vlib.tlc("InvertMatrix", "InvertMatrix_%d.cfg" % order, timeout=600)
+        chk.add_tlc(r, "InvertMatrix N=%d" % order)
+        if r.violation:
+            chk.model_violation(r, "InvertMatrix (the specified inverse is not an inverse)")
+            continue
+        res = vlib.run_cases(binary, r.printed, tmo=20, shards=2)
+        vlib.judge_results(chk, r.printed, res, lambda c, rr: {"kind": "invert", "n": c["n"], "pred": rr.get("pred", rr.get("outcome", "mismatch")), "type": rr.get("type", ""),
+                                                               "scale": rr.get("scale", 0)},
+                           keyf=lambda c: "invert " + json.dumps(c["a"]), harness="c18_invert")
+        n += len(r.printed)
+    chk.extra["invert_matrix_cases"] = n
+
+
 def _run(chk, tier, bins, gdir):
+    invert_part(chk, bins[2])
     table = element_table(chk)
     if table is None:
         return
@@ -195,7 +227,7 @@ def _run(chk, tier, bins, gdir):
     for c in cases:
         c["out"] = os.path.join(gdir, c["id"] + ".json")
     good = []
-    worst = {"dev_p": 0.0, "dev_tp": 0.0, "dev_v": 0.0, "dev_fn": 0.0, "vdev": 0.0, "rdev": 0.0, "xc_dev": 0.0, "xf_dev": 0.0, "dev_xs": 0.0}
+    worst = {"dev_p": 0.0, "dev_tp": 0.0, "dev_v": 0.0, "dev_fn": 0.0, "vdev": 0.0, "rdev": 0.0, "xc_dev": 0.0, "xf_dev": 0.0, "dev_xs": 0.0, "ctl_dev": 0.0}
     for fam in ("simplex", "hypercube"):
         cs = [c for c in cases if c["fam"] == fam]
         # the runner cuts the list into contiguous shards: interleave, so that the expensive cases (3D factories, files) are spread over all of them
@@ -207,7 +239,7 @@ def _run(chk, tier, bins, gdir):
                 continue
             if r.get("ok") is True:
                 good.append(c)
-                keys = (("dev_p", "dev_v") if c["ps"] > 0 else ("vdev", "rdev")) + (("dev_tp", "dev_fn", "xc_dev", "xf_dev") if c["nested"] else ()) + ("dev_xs",)
+                keys = (("dev_p", "dev_v") if c["ps"] > 0 else ("vdev", "rdev")) + (("dev_tp", "dev_fn", "xc_dev", "xf_dev") if c["nested"] else ()) + ("dev_xs", "ctl_dev")
                 for k in keys:
                     worst[k] = max(worst[k], r.get(k, 0.0))
                 continue
@@ -268,7 +300,7 @@ def _run(chk, tier, bins, gdir):
 
 
 def replay(obj):
-    bins = vlib.build(["c18_transfer_s", "c18_transfer_h"])
+    bins = vlib.build(["c18_transfer_s", "c18_transfer_h", "c18_invert"])
     bad = 0
     for v in obj["violations"]:
         print(json.dumps(v["sig"]), v["desc"][:300])
